@@ -166,6 +166,9 @@ fn addr_any(r: &mut Rng) -> u16 {
     // a quarter of the addresses sit on a window boundary, so that the two bytes of a word (stack, operand, code)
     // lie in memory of different contention status
     if r.chance(1, 4) {
+        if r.chance(1, 2) {
+            return ((window as u16) * 0x4000).wrapping_sub(1); // the word itself straddles the boundary
+        }
         return ((window as u16) * 0x4000).wrapping_sub(1).wrapping_add(r.below(3) as u16).wrapping_sub(r.below(2) as u16);
     }
     (window as u16) * 0x4000 + (r.u16() & 0x3FFF)
@@ -198,6 +201,25 @@ fn runs(out: &mut Out, r: &mut Rng, count: u64, long: u64) {
             &[0x23, 0xC3, 0x00, 0x80] // INC HL; JP 8000
         };
         poke_bytes(&mut emu, 0x8000, prog);
+        // the deck: empty, a good tape playing in real time, or a damaged one (a block cut short / a zeroed tail, which
+        // reads as a run of zero-length blocks): the host carries on after every tape error it is told about
+        let tape_kind = r.below(5);
+        if tape_kind >= 2 {
+            // (the damage comes first: a pilot tone alone outlasts these runs)
+            let good = crate::tape::tap_bytes(&[vec![0xFF, 1, 2, 3, 0xFF ^ 1 ^ 2 ^ 3], vec![0u8; 19]]);
+            let bytes = match tape_kind {
+                3 => vec![40, 0, 0xFF, 1, 2, 3],
+                4 => {
+                    let mut b = vec![0u8; 2 * (1 + r.below(400) as usize)];
+                    b.extend(good);
+                    b
+                }
+                _ => good,
+            };
+            emu.load_tape(rustzx_core::host::Tape::Tap(DynAsset::mem(bytes))).expect("load_tape");
+            emu.play_tape();
+        }
+        let mut tape_errors = 0u64;
         out.ev(json!({"ev":"reset","m": if m128 {128} else {48}, "banks": [["rom",0],["ram",5],["ram",2],["ram",0]]}));
         // start somewhere in the frame
         let start = r.below(frame as u64) as usize;
@@ -237,11 +259,23 @@ fn runs(out: &mut Out, r: &mut Rng, count: u64, long: u64) {
             }
             let mut calls = 0u64;
             loop {
-                let info = emu.emulate_frames(if max_mode { Duration::from_millis(1) } else { Duration::from_secs(100000) }).expect("emulate");
+                let info = match emu.emulate_frames(if max_mode { Duration::from_millis(1) } else { Duration::from_secs(100000) }) {
+                    Ok(info) => info,
+                    Err(_) => {
+                        // a tape error is reported to the host, which carries on: emulated time goes on all the same
+                        tape_errors += 1;
+                        assert!(tape_kind >= 3, "emulate_frames failed without a damaged tape");
+                        if tape_errors > 5000 {
+                            stuck = true;
+                            break;
+                        }
+                        continue;
+                    }
+                };
                 if info.stop_reason == (if max_mode { rustzx_core::EmulationStopReason::Timeout } else { rustzx_core::EmulationStopReason::Completed }) {
                     break;
                 }
-                assert!(bp_k != 0 && info.stop_reason == rustzx_core::EmulationStopReason::Breakpoint);
+                assert!(bp_k != 0 && info.stop_reason == rustzx_core::EmulationStopReason::Breakpoint, "unexpected stop");
                 // a host may confirm its speed setting at any stop
                 if !max_mode && r.chance(1, 4) {
                     emu.set_speed(EmulationMode::FrameCount(n));
@@ -286,10 +320,10 @@ fn runs(out: &mut Out, r: &mut Rng, count: u64, long: u64) {
         };
         let frames = k_total + extra;
         if halt_variant {
-            out.ev(json!({"ev":"haltrun","tag":format!("R{ri}"),"frames":frames,"ints":de,"iters":hl,"t0":t0,"t1":t1,"slicing":slicing,"bp":bp_k}));
+            out.ev(json!({"ev":"haltrun","tag":format!("R{ri}"),"frames":frames,"ints":de,"iters":hl,"t0":t0,"t1":t1,"slicing":slicing,"bp":bp_k,"tape":tape_kind,"taperr":tape_errors}));
         } else {
             out.ev(json!({"ev":"run","tag":format!("R{ri}"),"frames":frames,"t0":t0,"t1":t1,"iters":hl,"loopT":16,
-                          "ints":de,"intT":61,"expectInts": if ei { -1 } else { 0 }, "ei": ei, "slicing":slicing,"bp":bp_k}));
+                          "ints":de,"intT":61,"expectInts": if ei { -1 } else { 0 }, "ei": ei, "slicing":slicing,"bp":bp_k,"tape":tape_kind,"taperr":tape_errors}));
         }
     }
 }
@@ -358,8 +392,15 @@ pub fn run(args: &Args) {
                     (2, 0xBB), (0, 0xDB), (0, 0xD3), (2, 0x40), (2, 0x41), (2, 0x78), (2, 0x79), (2, 0x70), (2, 0x71), (2, 0x4A),
                     (2, 0x42), (3, 0x09), (0, 0xCD), (0, 0xC7),
                 ];
-                let (page, op) = if r.chance(1, 3) { *r.pick(&SPECIAL) } else { (r.below(7), r.u8()) };
-                let bytes: Vec<u8> = match page {
+                // ... and a sixth from the encodings with a 16-bit operand address: the operand is drawn like the registers, so that
+                // the word read or written lies across a window boundary as often as they do
+                const NN: [(u64, u8); 20] = [
+                    (0, 0x2A), (0, 0x22), (0, 0x3A), (0, 0x32), (2, 0x4B), (2, 0x5B), (2, 0x6B), (2, 0x7B), (2, 0x43), (2, 0x53),
+                    (2, 0x63), (2, 0x73), (3, 0x2A), (3, 0x22), (4, 0x2A), (4, 0x22), (0, 0xC3), (0, 0xCD), (0, 0x01), (3, 0x21),
+                ];
+                let nn = r.chance(1, 6);
+                let (page, op) = if nn { *r.pick(&NN) } else if r.chance(1, 3) { *r.pick(&SPECIAL) } else { (r.below(7), r.u8()) };
+                let mut bytes: Vec<u8> = match page {
                     0 if port_cc && (op == 0xDB || op == 0xD3) => vec![op, 0xCC],
                     0 => vec![op],
                     1 => vec![0xCB, op],
@@ -369,6 +410,11 @@ pub fn run(args: &Args) {
                     5 => vec![0xDD, 0xCB, r.u8(), op],
                     _ => vec![0xFD, 0xCB, r.u8(), op],
                 };
+                if nn {
+                    let a = addr_any(&mut r);
+                    bytes.push(a as u8);
+                    bytes.push((a >> 8) as u8);
+                }
                 for (k, b) in bytes.iter().enumerate() {
                     m.emu.verif_bus_write(init.pc + k as u16, *b);
                 }
